@@ -14,7 +14,33 @@ THEOREMS = [
     'p_row_start p = a + tc_neg (o_rows o) + 1 /\\ p_row_end p = b + tc_neg (o_rows o) + 1 (same for columns)',
     'C08_auto_no_overlap : ... is_definite (c_row c) && is_definite (c_col c) = false -> p_index p <> p_index q -> ~ overlap p q',
     'C08_placement_succeeds_with_all_clauses : in_domain ec er children -> exists o, grid_placement_run ec er flow children = Ok o /\\ (all clauses)',
+    'C08_area_in_range_refuted_for_span_zero : exists o p, grid_placement_run 3 1 FRow span_zero_children = Ok o /\\ In p (o_items o) /\\ '
+    'p_col_start p = 1 /\\ p_col_end p = 1   (span 0 is outside in_domain; the witness is replayed on the implementation on every run)',
 ]
+
+# the witness of C08_area_in_range_refuted_for_span_zero (Props/C08.v): 3 x 1 grid, row flow, child 0 `grid_column: span 0`, child 1 auto
+SPAN_ZERO_WITNESS = [3, 1, 0, 2, 0, 0, 0, 0, 0, 2, 0, 0, 0, 0, 0, 0, 0, 0, 0, 0, 0, 0]
+
+
+def replay_span_zero_witness(rep, binp):
+    """The `_refuted` witness on the implementation: the model's result must be the implementation's (K on exactly this input) and the
+    implementation must show the empty column area the theorem exhibits.  `span 0` is outside the domain of the positive theorems (and
+    of the generators), so this is recorded in the evidence, not reported as a violation; if the implementation stops producing the empty
+    area the theorem's comment is stale and the entry says so."""
+    try:
+        r, msg = P.run_one(binp, SPAN_ZERO_WITNESS)
+        model = P.model_eval('C08w', [SPAN_ZERO_WITNESS])[0]
+    except RuntimeError as ex:
+        rep.add_broken('correspondence', 'span-0 witness replay', str(ex)[-800:])
+        return
+    ent = {'case': SPAN_ZERO_WITNESS, 'described': P.describe(SPAN_ZERO_WITNESS), 'impl': r, 'model': model, 'oracle_says': msg,
+           'reproduces_on_implementation': bool(msg and 'not a non-empty range' in msg)}
+    rep.cov['span_zero_witness'] = ent
+    if r != model:
+        rep.add_broken('correspondence', 'span-0 witness of C08_area_in_range_refuted_for_span_zero: model vs implementation',
+                       {'case': SPAN_ZERO_WITNESS, 'impl': r, 'model': model})
+    elif not ent['reproduces_on_implementation']:
+        log('[C08] the span-0 witness no longer gives an empty area on the implementation: C08_area_in_range_refuted_for_span_zero is stale')
 
 
 def run(rep, tier, seed, replay=None):
@@ -27,6 +53,8 @@ def run(rep, tier, seed, replay=None):
         return
     for t in THEOREMS:
         rep.cov['samples'].append({'theorem': t})
+    if not replay:
+        replay_span_zero_witness(rep, binp)
     # ---- search: the three clauses directly on the implementation
     big = bool(rep.broken) or tier == 'thorough'
     n = 400000 if big else 60000
